@@ -452,7 +452,12 @@ def _pop_line_before_zid(words: list[str]) -> str:
     symbol = words.pop(0)
 
     priority = ""
-    if len(words[0]) == 2 and words[0][0] == "P" and words[0][1].isdigit():
+    if (
+        symbol != "-"  # plain notes have no priority (e.g. '- P1 is a word')
+        and len(words[0]) == 2
+        and words[0][0] == "P"
+        and words[0][1].isdigit()
+    ):
         priority = f"{words.pop(0)} "
     return f"{spaces}{symbol} {priority}"
 
